@@ -73,13 +73,13 @@ def jobs(tier):
     n = int(os.environ.get('PARSE_N', '6' if tier == 'quick' else '8'))
     J.append(Job('literal_parse_int_len%d' % n, [os.path.join(HERE, 'parse_harness.c'), os.path.join(OUT, 'parse_bodies.c'),
                                                   os.path.join(OUT, 'int_bodies.c'), os.path.join(HERE, 'prims.c')],
-                 'hb_parse_int', includes=inc, inputs=['n', 'text[*'], defines=['PARSE_MAXLEN=%d' % n], kind='bounded',
+                 'hb_parse_int', includes=inc, inputs=['n', 'text[*'], input_fns=['check_literal'], defines=['PARSE_MAXLEN=%d' % n], kind='bounded',
                  unwind=n + 3, timeout=3000,
                  note='bounded: all scanner tokens "-"?[0-9][_a-zA-Z0-9]* of length <= %d; std::stoull by its model' % n))
     for shape, to in ((('hex16', 1500),) if tier == 'quick' else (('hex16', 1500), ('dec_boundary', 2400))):
         J.append(Job('literal_' + shape, [os.path.join(HERE, 'parse_harness.c'), os.path.join(OUT, 'parse_bodies.c'),
                                           os.path.join(OUT, 'int_bodies.c'), os.path.join(HERE, 'prims.c')],
-                     'hb_parse_' + shape, includes=inc, inputs=['neg', 'digits', 'text[*'], defines=['PARSE_MAXLEN=22'],
+                     'hb_parse_' + shape, includes=inc, inputs=['neg', 'digits', 'text[*', 'n'], input_fns=['check_literal'], defines=['PARSE_MAXLEN=22'],
                      kind='bounded', unwind=25, timeout=to,
                      note='bounded: literals of the fixed shape %s with every digit symbolic (reaches 2^63 and 2^64)' %
                           {'hex16': '"-"? 0x h{16}', 'dec_boundary': '"-"? (18446744073709|9223372036854) d{6}'}[shape]))
@@ -213,7 +213,54 @@ def replay_input(op, au, as_, bu, bs):
             'observed_on_real_code': list(g), 'expected_exact': list(exp), 'raw': out.strip()[:200]}
 
 
+def replay_literal(r):
+    """Literal jobs: run the literal through the real library as a one-word Zwerg query and compare with
+    Python's reading of the same text."""
+    def ch(x):
+        s = str(x)
+        if s.startswith("'") and len(s) >= 3:
+            return s[1:-1].encode().decode('unicode_escape')
+        n = int(''.join(c for c in s if c.isdigit() or c == '-') or 0)
+        return chr(n & 255)
+    n = None
+    chars = {}
+    for k, v in r.cex.items():
+        if k == 'n':
+            n = int(''.join(c for c in str(v) if c.isdigit()) or 0)
+        if k.startswith('text['):
+            i = int(''.join(c for c in k[5:] if c.isdigit()))
+            chars[i] = ch(v)
+    if not chars:
+        return {'reproduced': False, 'note': 'no literal text in the counterexample'}
+    if n is None:
+        n = max(chars) + 1
+        while n > 0 and chars.get(n - 1, '\0') == '\0':
+            n -= 1
+    text = ''.join(chars.get(i, '0') for i in range(n))
+    body, neg = (text[1:], True) if text.startswith('-') else (text, False)
+    try:
+        low = body.lower()
+        if low.startswith('0x'): val = int(low[2:], 16)
+        elif low.startswith('0b'): val = int(low[2:], 2)
+        elif low.startswith('0o'): val = int(low[2:], 8)
+        elif len(low) > 1 and low.startswith('0'): val = int(low[1:], 8)
+        else: val = int(low, 10)
+        val = -val if neg else val
+        ok = -(1 << 63) <= val <= (1 << 64) - 1
+    except ValueError:
+        ok, val = False, None
+    res = vlib.zw_queries([text, '%s "%%d"' % text], OUT)
+    got = res[0] if res else (None, 'no output')
+    accepted = got[0] is not None and got[0] == 1
+    shown = res[1][1].strip().strip('<>') if len(res) > 1 and res[1][0] else None
+    bad = accepted != ok or (ok and shown is not None and shown != str(val))
+    return {'reproduced': bool(bad), 'literal': text, 'python_reading': val if ok else 'rejected',
+            'real_library': {'accepted': accepted, 'decimal_rendering': shown, 'raw': got[1][:120]}}
+
+
 def replay(r):
+    if r.job.name.startswith('literal_'):
+        return replay_literal(r)
     op = OPMAP.get(r.job.name)
     if op is None or not r.cex:
         return {'reproduced': False, 'note': 'no operator-level counterexample for this job'}
